@@ -35,7 +35,7 @@ R_PLANS_QUICK = [
     ("p3", 4, 2, 2), ("t3", 4, 2, 2), ("p4", 4, 2, 2), ("paw", 4, 2, 2),
 ]
 R_PLANS_THOROUGH = R_PLANS_QUICK + [
-    ("c4", 4, 3, 3), ("p4", 5, 2, 2), ("paw", 5, 1, 2), ("c4", 5, 1, 2), ("p5", 5, 1, 2), ("p6", 3, 2, 2),
+    ("c4", 4, 3, 3), ("p4", 5, 2, 2), ("paw", 5, 1, 2), ("c4", 5, 1, 2), ("p5", 5, 1, 2), ("p6", 3, 1, 2),
 ]
 
 # (graph, number of agents, max replica-set size); every non-empty departed subset of size <= 2; 3 cost menus
@@ -584,7 +584,8 @@ def k_shard(job, part):
                 for s in itertools.combinations(case["fps"], r)):
             part.count("capacity_cases_with_exact_fit")
         part.outcome(("K", case["kind"], tuple(got_vec)))
-        if idx == 0 and k_nontrivial(case, got_vec) and case["kind"] in ("capacity", "comm") and case["kind"] not in sampled:
+        if (idx == 0 and k_nontrivial(case, got_vec) and case["kind"] in ("capacity", "comm") and case.get("menu", 0) == 0
+                and case["kind"] not in sampled):
             sampled.add(case["kind"])
             part.sample({"case": case, "scores_over_all_assignments": got_vec})
 
@@ -827,8 +828,10 @@ def p_state_check(st, menu_idx, part, only_agent=None, verbose=False):
         if any(nbrs[c] for c in mine):
             part.nontriv(("P", repr(st), menu_idx, a))
         part.outcome(("P", out))
-        if len(mine) >= 2 and menu_idx == 1 and st["graph"] == "t3" and st["hosts"] == [0, 1, 2] and st["reps"][0] == [1, 2]:
-            part.sample({"layer": "P", "state": st, "menu": menu_idx, "agent": a, "scores": out}, cap=1)
+        if (len(mine) >= 2 and menu_idx == 1 and st["graph"] == "t3" and st["agents"] == 3 and st["hosts"] == [0, 1, 2]
+                and st["reps"][0] == [1, 2]):
+            part.sample({"layer": "P", "state": st, "menu": menu_idx, "agent": a, "number_of_scores": len(out),
+                         "comm_scores": [o for o in out if str(o[0]).startswith("comm_")][:8]}, cap=1)
 
 
 def p_jobs(plans):
